@@ -485,7 +485,7 @@ def callPy (cfg : Cfg) : Nat → Nat → List Val → List (String × Val) → B
           let σ1 := { σ with locals := frame, depth := σ.depth + 1 }
           let (sg, σ2) ← execPL cfg n f.body σ1
           let first : Option Val := match f.params with
-            | (p, _) :: _ => σ2.getVar (p, [])
+            | (p, _) :: _ => if p = "arg_stack" then σ2.getVar (p, []) else Option.none   -- `list_item(s, …)` copies `s` first
             | [] => Option.none
           -- back in the caller's frame; a function body cannot rebind a module variable (no `global` statement in
           -- any template: `setVar` at depth > 0 writes the frame), which restoring `globals` states once, here
